@@ -195,7 +195,8 @@ class Ctx:
 		self.inconclusive.append(reason)
 
 	def too_many(self):
-		return sum(1 for v in self.violations if not v["known"]) >= 50
+		# (two cases that do not terminate are enough: each of them costs minutes)
+		return sum(1 for v in self.violations if not v["known"]) >= 50 or self.counters.get("cases_that_do_not_terminate", 0) >= 2
 
 	def time_left(self):
 		if self.deadline is None:
@@ -418,6 +419,73 @@ def run_sharded(ctx, nshards, timeout):
 		with open(out) as f:
 			ctx.merge_partial(json.load(f))
 		os.unlink(out)
+
+
+class Hang(BaseException):
+	""" Raised by the case watchdog inside whatever the main thread is executing (BaseException, so
+	    that an `except Exception` of the code under test cannot swallow it). """
+
+
+class case_watchdog:
+	""" Non-termination of the code under test, decided per generated case.
+
+	    with case_watchdog(ctx, sub, witness, first = 20, second = 40): <one case, normally milliseconds>
+
+	    A timer fires after `first` seconds and notes where the main thread is; if the *same case* is still
+	    running `second` seconds later the case is abandoned: a violation ("does not terminate") when the
+	    main thread was executing repository code both times, inconclusive when it was in the harness.
+	    One case taking more than a minute is a slowdown of three orders of magnitude - machine load does
+	    not produce that.  Only the main thread can be interrupted; elsewhere the guard does nothing. """
+
+	def __init__(self, ctx, sub, witness, first = 20, second = 40):
+		self.ctx, self.sub, self.witness = ctx, sub, witness
+		self.first, self.second = first, second
+		self.where = []
+
+	def _innermost_repo_frame(self, frame):
+		f = frame
+		while f is not None:
+			fn = f.f_code.co_filename
+			if fn.startswith(REPO):
+				return "%s:%d (%s)" % (os.path.relpath(fn, REPO), f.f_lineno, f.f_code.co_name)
+			if fn.startswith(VERIF):
+				return None          # the innermost interesting frame is the harness's own
+			f = f.f_back
+		return None
+
+	def _on_alarm(self, sig, frame):
+		import signal
+		self.where.append(self._innermost_repo_frame(frame))
+		if len(self.where) == 1:
+			signal.setitimer(signal.ITIMER_REAL, self.second)
+			return
+		raise Hang()
+
+	def __enter__(self):
+		import signal
+		import threading
+		self.armed = threading.current_thread() is threading.main_thread()
+		if self.armed:
+			self.old = signal.signal(signal.SIGALRM, self._on_alarm)
+			signal.setitimer(signal.ITIMER_REAL, self.first)
+		return self
+
+	def __exit__(self, et, ev, tb):
+		import signal
+		if self.armed:
+			signal.setitimer(signal.ITIMER_REAL, 0)
+			signal.signal(signal.SIGALRM, self.old)
+		if et is Hang:
+			w = self.witness() if callable(self.witness) else self.witness
+			if all(self.where):
+				self.ctx.count("cases_that_do_not_terminate")
+				self.ctx.violation(self.sub, dict(w or {}, stuck_at = self.where), what =
+					"does not terminate: one case still running after %d s (normally milliseconds), the main thread was in %s and then in %s"
+					% (self.first + self.second, self.where[0], self.where[-1]))
+			else:
+				self.ctx.inconclusive_because("%s: a case ran for %d s inside the harness itself" % (self.sub, self.first + self.second))
+			return True
+		return False
 
 
 def guard(ctx, sub, fn, *args):
